@@ -69,6 +69,13 @@ impl Op {
 /// Result of one op against the hit oracle.
 /// `capacity` = Some(c) additionally asserts C13's bound after a successful put.
 pub fn apply(cache: &DiskCache, op: &Op, capacity: Option<u64>) -> Result<OpOutcome, String> {
+    apply_ex(cache, op, capacity, true)
+}
+
+/// `check_hits` = false: a hit is only counted, its content is not compared (used after an entry was
+/// forged - renamed under a name that keeps its length / checksum identity but claims another range -
+/// which the on-disk format cannot tell from a genuine entry; panics still count).
+pub fn apply_ex(cache: &DiskCache, op: &Op, capacity: Option<u64>, check_hits: bool) -> Result<OpOutcome, String> {
     let (k, a, b) = op.range();
     let key = key_of(k);
     let range = ChunkRange { start: a, end: b };
@@ -91,6 +98,7 @@ pub fn apply(cache: &DiskCache, op: &Op, capacity: Option<u64>) -> Result<OpOutc
         Op::Get { .. } => match cache.get(&key, &range) {
             Ok(None) => Ok(OpOutcome::Miss),
             Err(e) => Ok(OpOutcome::GetErr(e.to_string())),
+            Ok(Some(_)) if !check_hits => Ok(OpOutcome::Hit),
             Ok(Some(r)) => {
                 let (o, d) = range_data(k, a, b);
                 if r.range != range {
